@@ -1,0 +1,249 @@
+// verif_hooks.rs - verification hooks
+//
+// Only compiled with `--cfg matszpk_simple_irc_server_verif`. These hooks are used by
+// external verification harness: they dump internal state in canonical text form
+// and expose few private helpers. They do not change any behaviour of the server.
+
+use super::*;
+use std::fmt::Write;
+
+// escape string to token without blanks and commas. empty string is '%e'.
+pub(crate) fn verif_esc(s: &str) -> String {
+    if s.is_empty() {
+        return "%e".to_string();
+    }
+    let mut out = String::new();
+    for c in s.chars() {
+        let n = c as u32;
+        if !(0x21..=0x7e).contains(&n) || c == '%' || c == ',' {
+            write!(out, "%{:x};", n).unwrap();
+        } else {
+            out.push(c);
+        }
+    }
+    out
+}
+
+// escape list of strings (sorted). empty list is '%n'.
+pub(crate) fn verif_esc_list<'a, I: Iterator<Item = &'a String>>(it: I) -> String {
+    let mut v = it.map(|s| s.as_str()).collect::<Vec<_>>();
+    v.sort();
+    if v.is_empty() {
+        "%n".to_string()
+    } else {
+        v.iter().map(|s| verif_esc(s)).collect::<Vec<_>>().join(",")
+    }
+}
+
+fn verif_esc_opt(s: &Option<String>) -> String {
+    match s {
+        Some(s) => "+".to_string() + &verif_esc(s),
+        None => "-".to_string(),
+    }
+}
+
+fn verif_esc_optset(s: &Option<std::collections::HashSet<String>>) -> String {
+    match s {
+        Some(s) => verif_esc_list(s.iter()),
+        None => "%n".to_string(),
+    }
+}
+
+fn verif_chum(chum: &ChannelUserModes) -> String {
+    let mut s = String::new();
+    if chum.founder {
+        s.push('q');
+    }
+    if chum.protected {
+        s.push('a');
+    }
+    if chum.operator {
+        s.push('o');
+    }
+    if chum.half_oper {
+        s.push('h');
+    }
+    if chum.voice {
+        s.push('v');
+    }
+    verif_esc(&s)
+}
+
+impl MainState {
+    // dump whole volatile state as lines: 'st <kind> ...'.
+    pub(crate) async fn verif_dump(&self) -> String {
+        let state = self.state.read().await;
+        let mut out = String::new();
+        for (nick, u) in &state.users {
+            writeln!(
+                out,
+                "st user {} {} {} {} {} {} {} {} {} {} {} {} {}",
+                verif_esc(nick),
+                verif_esc(&u.name),
+                verif_esc(&u.realname),
+                verif_esc(&u.hostname),
+                verif_esc(&u.source),
+                verif_esc(&u.modes.to_string()[1..]),
+                verif_esc_opt(&u.away),
+                verif_esc_list(u.channels.iter()),
+                verif_esc_list(u.invited_to.iter()),
+                verif_esc(&u.history_entry.username),
+                verif_esc(&u.history_entry.hostname),
+                verif_esc(&u.history_entry.realname),
+                if u.quit_sender.is_none() { 1 } else { 0 },
+            )
+            .unwrap();
+        }
+        for (name, ch) in &state.channels {
+            let m = &ch.modes;
+            let mut flags = String::new();
+            if m.invite_only {
+                flags.push('i');
+            }
+            if m.moderated {
+                flags.push('m');
+            }
+            if m.secret {
+                flags.push('s');
+            }
+            if m.protected_topic {
+                flags.push('t');
+            }
+            if m.no_external_messages {
+                flags.push('n');
+            }
+            let d = &ch.default_modes;
+            writeln!(
+                out,
+                "st chan {} {} {} {} {} {} {} {} {} {} {} {} {} {} {} {} {} {} {} {}",
+                verif_esc(name),
+                verif_esc_opt(&ch.topic.as_ref().map(|t| t.topic.clone())),
+                verif_esc_opt(&ch.topic.as_ref().map(|t| t.nick.clone())),
+                verif_esc(&flags),
+                verif_esc_opt(&m.key),
+                m.client_limit
+                    .map(|l| format!("+{}", l))
+                    .unwrap_or_else(|| "-".to_string()),
+                verif_esc_optset(&m.ban),
+                verif_esc_optset(&m.exception),
+                verif_esc_optset(&m.invite_exception),
+                verif_esc_optset(&m.founders),
+                verif_esc_optset(&m.protecteds),
+                verif_esc_optset(&m.operators),
+                verif_esc_optset(&m.half_operators),
+                verif_esc_optset(&m.voices),
+                verif_esc_list(d.founders.iter()),
+                verif_esc_list(d.protecteds.iter()),
+                verif_esc_list(d.operators.iter()),
+                verif_esc_list(d.half_operators.iter()),
+                verif_esc_list(d.voices.iter()),
+                if ch.preconfigured { 1 } else { 0 },
+            )
+            .unwrap();
+            for (nick, chum) in &ch.users {
+                writeln!(
+                    out,
+                    "st member {} {} {}",
+                    verif_esc(name),
+                    verif_esc(nick),
+                    verif_chum(chum)
+                )
+                .unwrap();
+            }
+            for (mask, bi) in &ch.ban_info {
+                writeln!(
+                    out,
+                    "st ban {} {} {}",
+                    verif_esc(name),
+                    verif_esc(mask),
+                    verif_esc(&bi.who)
+                )
+                .unwrap();
+            }
+        }
+        writeln!(
+            out,
+            "st cnt {} {} {} {}",
+            state.invisible_users_count,
+            state.operators_count,
+            state.max_users_count,
+            self.conns_count.load(Ordering::SeqCst)
+        )
+        .unwrap();
+        writeln!(
+            out,
+            "st wallops {}",
+            verif_esc_list(state.wallops_users.iter())
+        )
+        .unwrap();
+        for (nick, hist) in &state.nick_histories {
+            for (i, e) in hist.iter().enumerate() {
+                writeln!(
+                    out,
+                    "st hist {} {} {} {} {}",
+                    verif_esc(nick),
+                    i,
+                    verif_esc(&e.username),
+                    verif_esc(&e.hostname),
+                    verif_esc(&e.realname)
+                )
+                .unwrap();
+            }
+        }
+        writeln!(
+            out,
+            "st srv {}",
+            if state.quit_sender.is_none() { 1 } else { 0 }
+        )
+        .unwrap();
+        out
+    }
+}
+
+impl ConnState {
+    // dump connection state as single line: 'st conn <id> ...'
+    pub(crate) fn verif_dump(&self, id: usize) -> String {
+        let us = &self.user_state;
+        format!(
+            "st conn {} {} {} {} {} {} {} {} {} {} {} {} {} {} {} {}\n",
+            id,
+            verif_esc_opt(&us.nick),
+            verif_esc_opt(&us.name),
+            verif_esc_opt(&us.realname),
+            verif_esc_opt(&us.password),
+            verif_esc(&us.hostname),
+            verif_esc(&us.source),
+            us.authenticated as u8,
+            us.registered as u8,
+            self.caps_negotation as u8,
+            self.caps.multi_prefix as u8,
+            self.is_quit() as u8,
+            self.sender.is_some() as u8,
+            self.quit_sender.is_some() as u8,
+            self.ping_sender.is_some() as u8,
+            self.pong_notifier.is_some() as u8,
+        )
+    }
+
+    // write line directly to connection's socket (used as fence by harness).
+    pub(crate) async fn verif_fence(&mut self, s: String) -> bool {
+        self.stream.feed(s).await.is_ok() && self.stream.flush().await.is_ok()
+    }
+}
+
+// private helpers exposed for differential testing.
+pub(crate) fn verif_privmsg_target_type(target: &str) -> (u8, String) {
+    let (t, s) = get_privmsg_target_type(target);
+    (t.bits(), s.to_string())
+}
+
+pub(crate) fn verif_chum_to_string(bits: u8, multi_prefix: bool) -> String {
+    ChannelUserModes {
+        founder: bits & 1 != 0,
+        protected: bits & 2 != 0,
+        operator: bits & 4 != 0,
+        half_oper: bits & 8 != 0,
+        voice: bits & 16 != 0,
+    }
+    .to_string(&CapState { multi_prefix })
+}
